@@ -299,26 +299,11 @@ fn emit_c12(w: &mut dyn Write, id: &str, label: &str, m: &Machine, crafted: Opti
         Outcome::Hang => "hang",
     };
     let _ = writeln!(w, "o fwnew {}", fwnew);
-    // the same judgement when the machines live in a slice that earlier calls on this thread have already
-    // passed to Framework::new (same address, same length, other content): it must not depend on the past
+    // the same judgement when the machines live in a slice that earlier calls on one thread have already
+    // passed to Framework::new (same address, same length, other content): it must not depend on the past.
+    // The slice lives in a persistent worker thread; the call is supervised (a hang is a result).
     if fwnew != "hang" {
-        thread_local! {
-            static SLOT: std::cell::RefCell<Vec<Machine>> = const { std::cell::RefCell::new(Vec::new()) };
-        }
-        let again = SLOT.with(|slot| {
-            let mut v = slot.borrow_mut();
-            if v.is_empty() {
-                v.push(m.clone());
-            } else {
-                v[0] = m.clone();
-            }
-            let r = catch_unwind(AssertUnwindSafe(|| Framework::new(&*v, fp, fb, VInstant(0), ScriptRng::new(7, 0)).map(|_| ())));
-            match r {
-                Ok(Ok(())) => "ok",
-                Ok(Err(_)) => "err",
-                Err(_) => "panic",
-            }
-        });
+        let again = same_slice_again(m.clone(), fp, fb);
         let _ = writeln!(w, "o fwnew2 {}", again);
     }
     // "a machine obtained from any of them can always be run": drive every framework the
@@ -338,6 +323,64 @@ fn emit_c12(w: &mut dyn Write, id: &str, label: &str, m: &Machine, crafted: Opti
         );
     }
     let _ = writeln!(w, "end");
+}
+
+type SliceJob = (Machine, f64, f64);
+
+struct SliceWorker {
+    tx: mpsc::Sender<SliceJob>,
+    rx: mpsc::Receiver<&'static str>,
+}
+
+/// `Framework::new` on a one-element slice owned by a long-lived worker thread whose element is overwritten
+/// for every call.  After a hang the worker is abandoned and a new one started; after eight hangs the step
+/// is skipped for the rest of the process so that the total time stays bounded.
+fn same_slice_again(m: Machine, fp: f64, fb: f64) -> &'static str {
+    use std::sync::atomic::{AtomicUsize, Ordering};
+    use std::sync::Mutex;
+    static WORKER: Mutex<Option<SliceWorker>> = Mutex::new(None);
+    static HANGS: AtomicUsize = AtomicUsize::new(0);
+    if HANGS.load(Ordering::SeqCst) >= 8 {
+        return "-";
+    }
+    let mut guard = WORKER.lock().unwrap();
+    if guard.is_none() {
+        let (tx, jrx) = mpsc::channel::<SliceJob>();
+        let (rtx, rx) = mpsc::channel::<&'static str>();
+        let _ = std::thread::Builder::new().stack_size(16 << 20).spawn(move || {
+            let mut slot: Vec<Machine> = Vec::new();
+            while let Ok((m, fp, fb)) = jrx.recv() {
+                if slot.is_empty() {
+                    slot.push(m);
+                } else {
+                    slot[0] = m;
+                }
+                let r = catch_unwind(AssertUnwindSafe(|| Framework::new(&slot, fp, fb, VInstant(0), ScriptRng::new(7, 0)).map(|_| ())));
+                let v = match r {
+                    Ok(Ok(())) => "ok",
+                    Ok(Err(_)) => "err",
+                    Err(_) => "panic",
+                };
+                if rtx.send(v).is_err() {
+                    return;
+                }
+            }
+        });
+        *guard = Some(SliceWorker { tx, rx });
+    }
+    let wk = guard.as_ref().unwrap();
+    if wk.tx.send((m, fp, fb)).is_err() {
+        *guard = None;
+        return "-";
+    }
+    match wk.rx.recv_timeout(Duration::from_millis(5000)) {
+        Ok(v) => v,
+        Err(_) => {
+            HANGS.fetch_add(1, Ordering::SeqCst);
+            *guard = None; // abandon the spinning worker
+            "hang"
+        }
+    }
 }
 
 fn run_accepted(m: Machine, fp: f64, fb: f64) {
